@@ -637,6 +637,43 @@ func genGoodResult(r *core.Rand) string {
 	return strings.Join(es, "; ")
 }
 
+// ---- words with a meaning to the engine ----
+
+// Helper arguments are strings chosen by whoever wrote the PAC file (an intranet host may be called "constructor");
+// inside the helpers they index objects, become RegExp sources, are compared loosely and converted to numbers.
+// engineWords are strings that mean something to the engine in one of these roles: names of Object.prototype
+// members (what a lookup in a plain object finds for a key nobody stored), of Array / Function / String members,
+// the spellings of undefined / null / NaN / booleans, numeric strings in several notations, the empty string and
+// blanks, RegExp metacharacters and replacement patterns, names of the helpers' own tables, and very long strings.
+var engineWords = []string{
+	"constructor", "toString", "valueOf", "hasOwnProperty", "isPrototypeOf", "propertyIsEnumerable", "toLocaleString",
+	"__proto__", "__defineGetter__", "__defineSetter__", "__lookupGetter__", "__lookupSetter__", "prototype",
+	"length", "name", "caller", "arguments", "call", "apply", "bind", "test", "exec", "source", "lastIndex", "index", "input",
+	"undefined", "null", "NaN", "Infinity", "-Infinity", "true", "false", "function", "this", "eval", "Object", "Array",
+	"0", "1", "-1", "-0", "00", "08", "255", "256", "1e3", "0x10", "1.5", ".5", "5.", "4294967295", "4294967296", "9007199254740993", " 7 ",
+	"", " ", "  ", "\t", ".", "..", "*", "?", "**", "?*?",
+	"(", ")", "[", "]", "{", "}", "+", "|", "^", "$", "\\", "\\d", "\\.", "[a-z]+", "(a|b)", "a{2}", "^a$", "(?:x)", "(?=x)", "a+?", "[^.]", "$1", "$&", "$`", "$'", "$$",
+	"SUN", "MON", "SAT", "JAN", "DEC", "GMT", "wdays", "months", "dnsResolve", "shExpMatch", "FindProxyForURL", "host", "url",
+	"[object Object]", "function () { [native code] }", "a,b", "1,2", "0.0.0.0", "255.255.255.255", "::", "::1", "0/0", "/", "/8", "1/8",
+}
+
+var longWords = []string{
+	strings.Repeat("a", 3000), strings.Repeat("ab.", 800), strings.Repeat("w.", 1200) + "example.com", strings.Repeat("9", 400),
+	"constructor" + strings.Repeat(".constructor", 200), strings.Repeat("1.", 500) + "1", "*" + strings.Repeat("x", 2000),
+	strings.Repeat("?", 600), strings.Repeat("a", 1500) + "*" + strings.Repeat("b", 1500),
+}
+
+func genEngineWord(r *core.Rand) string {
+	switch {
+	case r.Chance(6):
+		return core.Pick(r, longWords)
+	case r.Chance(12): // a word as a label of a name, or with a glob around it
+		w := core.Pick(r, engineWords[:40])
+		return core.Pick(r, []string{w + ".example.com", "www." + w, w + "." + w, "*." + w, w + "*", "." + w, w + ".", "?" + w[min(1, len(w)):]})
+	}
+	return core.Pick(r, engineWords)
+}
+
 // ---- malformed values ----
 
 func genMalformedArg(r *core.Rand) val {
@@ -790,6 +827,17 @@ func genCall(r *core.Rand, name string, h hint, malformed bool) call {
 	case "sortIpAddressList":
 		c.args = []arg{aLit(vStr(genIPList(r)))}
 	case "myIpAddress", "myIpAddressEx", "getClientVersion":
+	}
+	if len(c.args) > 0 && r.Chance(12) {
+		// any string is an argument: words with a meaning to the engine, in one position or in all
+		if r.Chance(25) {
+			w := genEngineWord(r)
+			for i := range c.args {
+				c.args[i] = aLit(vStr(w))
+			}
+		} else {
+			c.args[r.Intn(len(c.args))] = aLit(vStr(genEngineWord(r)))
+		}
 	}
 	if malformed && len(c.args) > 0 {
 		i := r.Intn(len(c.args))
